@@ -255,7 +255,9 @@ def run_harness(binpath, seed, tier, only=None):
 def eval_terms(prop, terms, rundir, imports):
     """evaluate distinct Gallina terms (each : list Z) with vm_compute, sharded over 16 coqc runs"""
     uniq = list(dict.fromkeys(terms))
-    nshards = max(1, min(16, (len(uniq) + 39) // 40))
+    # at most 16 evaluators at a time, and at most ~3000 terms per evaluator: the memory of one coqc grows with its batch, and a
+    # thorough run of 400 k terms in 16 batches was killed for lack of memory on a loaded machine (more, smaller batches instead)
+    nshards = max(1, min(16, (len(uniq) + 39) // 40), (len(uniq) + 2999) // 3000)
     shards = [uniq[i::nshards] for i in range(nshards)]
     def one(k):
         k, res, out = one_terms(k, shards[k], "")
